@@ -35,6 +35,12 @@ Lex == [
   importarg|-> <<"'a'", "\"a b\"", "url(a)", "url(\"a\")", "url(", "url(a b)", "'unterminated", "layer", "layer(x)", "layer(x.y)", "layer(", "LAYER",
                  "supports(display:grid)", "supports(", "supports(.a{})", "screen", "(min-width:1rpx)", "and", "not all", "'*/'", "'~ASTRAL~%20 %'", "''",
                  "url()", "url('')", "'a' 'b'", "layer layer", "supports(a) supports(b)", "\"\\\"\"", "'a\nb'">>,
+  importstmt |-> <<"@import 'a';", "@import \"a b\" layer(x);", "@import url(a) Layer(x);", "@import 'a' LAYER(x) supports(a:b);", "@import 'a' SUPPORTS(a:b) screen;",
+                 "@import 'a' Supports((a:b) and (c:d)) print and (min-width:1rpx);", "@IMPORT 'a' layer;", "@Import url(\"a\") LAYER;", "@import 'a' layer( x ) supports( (a:b) );",
+                 "@import 'a' layer(;", "@import 'a' supports(;", "@import layer(x);", "@import 'a' layer(x) layer(y);", "@import 'a' supports(a:b) layer(b);", "@import 'a' x(y);",
+                 "@import 'a' layer(x) supports(a:b) supports(c:d) screen;", "@import 'a' URL(b);", "@import 'a' layer(x)screen", "@import 'a' supports(a:b){}", "@import 'a' (a:b) layer(x);",
+                 "@import 'a' not all and (color), print;", "@import url( 'a' ) layer(x.y) supports(selector(.a > .b));", "@import 'a' layer(~UIDENT~);", "@import 'a' Layer;",
+                 "@import 'a' supports(font-format(woff2)) SCREEN;", "@import 'a' layer() ;", "@import 'a' supports() ;", "@import 'a'layer(x);", "@import\n'a'\nlayer(x)\n;">>,
   prop     |-> <<"color", "width", "--x", "-", "--", "*zoom", "_height", "1", "~UIDENT~", "\\", "COLOR", "a b", "a.b", "!x", "$v", "@x", "">>,
   num      |-> <<"1rpx", "-0rpx", "+.5rpx", "1e3rpx", "1e999rpx", "1e-999rpx", "2147483648rpx", "-2147483649rpx", "1RPX", "1rpx2", "1\\72px", "1r\\70x", "0", "1", "-1", "+1",
                  "1.5", "100%", "1e", "1e+", ".", "+", "1px", "1e3e", "1e-", "99999999999999999999999999999999999999999", "1--x", "1e39rpx", "-1e39%", "0.0000000000000000000000000000000000000000000001rpx",
@@ -56,7 +62,7 @@ Common(c) == { <<"cmt", c>>, <<"ws", c>>, <<"uws", c>>, <<"odd", c>> }
 
 T == [
   Top |-> Common("Top") \cup
-          { <<"selstart", "Sel">>, <<"selfunc", "Paren">>, <<"at", "AtPre">>, <<"lbrace", "Block">>, <<"rbrace", "Top">>, <<"rparen", "Top">>,
+          { <<"importstmt", "Top">>, <<"selstart", "Sel">>, <<"selfunc", "Paren">>, <<"at", "AtPre">>, <<"lbrace", "Block">>, <<"rbrace", "Top">>, <<"rparen", "Top">>,
             <<"rbrack", "Top">>, <<"semi", "Top">>, <<"num", "Sel">>, <<"valtok", "Sel">>, <<"colon", "Sel">>, <<"comma", "Sel">>, <<"lparen", "Paren">>,
             <<"lbrack", "Paren">>, <<"func", "Paren">>, <<"comb", "Sel">> },
   Sel |-> Common("Sel") \cup
@@ -68,7 +74,7 @@ T == [
             <<"lbrace", "Top">>, <<"semi", "Top">>, <<"rbrace", "Top">>, <<"selstart", "AtPre">>, <<"comb", "AtPre">>, <<"valtok", "AtPre">>,
             <<"at", "AtPre">>, <<"colon", "AtPre">>, <<"comma", "AtPre">>, <<"rparen", "AtPre">>, <<"rbrack", "AtPre">> },
   Block |-> Common("Block") \cup
-          { <<"prop", "AfterProp">>, <<"rbrace", "Top">>, <<"semi", "Block">>, <<"selstart", "Sel">>, <<"at", "AtPre">>, <<"lbrace", "Block">>,
+          { <<"importstmt", "Block">>, <<"prop", "AfterProp">>, <<"rbrace", "Top">>, <<"semi", "Block">>, <<"selstart", "Sel">>, <<"at", "AtPre">>, <<"lbrace", "Block">>,
             <<"colon", "Val">>, <<"num", "Val">>, <<"valtok", "Val">>, <<"rparen", "Block">>, <<"rbrack", "Block">>, <<"lparen", "Paren">>,
             <<"func", "Paren">>, <<"selfunc", "Paren">>, <<"comb", "Block">> },
   AfterProp |-> Common("AfterProp") \cup
